@@ -3244,7 +3244,9 @@ static int expand_define () {
               if (c == ',' && !parcnt && !dquote && !squote)
                 {
                   *q++ = 0;
-                  args[++n] = q;
+                  if (++n == NARGS)
+                    break;
+                  args[n] = q;
                 }
               else if (parcnt < 0)
                 {
